@@ -666,6 +666,29 @@ def rule_r6(facts):
     return r
 
 
+def rule_r7(facts):
+    """`?` on an io::Result inside the library converts through From<io::Error> for Error: the conversion must keep the
+    error and class it as IoError (a different class changes what callers - e.g. the stream decoder's retry - do with it)."""
+    r = report.RuleResult("C12.R7", "io::Error converts to Error::IoError carrying the same error")
+    b = None
+    for x in facts.bodies:
+        if x.promoted is None and x.item == "from" and x.trait == "std::convert::From" and x.self_ty is not None and \
+                x.self_ty.name == "error::Error" and x.arg_count == 1 and "io::Error" in (x.locals[1].ty.s or ""):
+            b = x
+    r.need("impl From<io::Error> for Error", b is not None)
+    if b is None:
+        return r
+    tm = Terms(b)
+    r.sites = 1
+    aggs = [(s_.rv.variant_name, [tm.of_operand(o) for o in s_.rv.ops]) for blk in b.blocks for s_ in blk.stmts
+            if s_.k == "assign" and s_.rv.k == "aggregate" and s_.rv.agg == "adt" and s_.rv.adt_name == "error::Error"]
+    if len(aggs) == 1 and (aggs[0][0] or "").endswith("IoError") and aggs[0][1] and aggs[0][1][0][0] == "arg":
+        r.ok("term", {"From<io::Error>": "Error::IoError(e)"})
+    else:
+        r.bad("from-io|class", "io::Error is converted to %s, not to Error::IoError(e)" % [(v, [flow.show(o)[:30] for o in ops]) for v, ops in aggs], pat.where(b))
+    return r
+
+
 def _subterms(t, out=None):
     out = [] if out is None else out
     if isinstance(t, tuple):
@@ -679,7 +702,7 @@ def _subterms(t, out=None):
 
 def run(ctx, t0):
     facts = ctx.facts()
-    rules = [rule_r1(facts), rule_r2(facts), rule_r3(facts), rule_r4(facts), rule_r5(facts), rule_r6(facts)]
+    rules = [rule_r1(facts), rule_r2(facts), rule_r3(facts), rule_r4(facts), rule_r5(facts), rule_r6(facts), rule_r7(facts)]
     expl = ("Static: def-use classification of every fallible call's Result over MIR (propagated / matched with an "
             "Err arm that cannot reach a successful return / explicit swallow table), provenance of the counts "
             "returned by raw read/write calls, dominance of flush and write_all over successful returns, and "
